@@ -924,6 +924,19 @@ func c16Heartbeat(ctx *Ctx) {
 		before := e.be.ReadyConns(h)
 		e.be.Mute(h, true)
 		t0 := time.Now()
+		if h == 3 {
+			// ... with requests in flight on the silent host's connection (a connection that has work outstanding is not
+			// thereby alive): another client sends a few requests, one of which the round robin hands to the silent host
+			if busy, err := px.Dial(e.env.Addr); err == nil {
+				defer busy.Close()
+				if busy.Startup(primitive.ProtocolVersion4, "") == nil {
+					for k := 0; k < 4; k++ {
+						_ = busy.Send(primitive.ProtocolVersion4, int16(10+k), &message.Query{Query: fmt.Sprintf("SELECT v FROM ks.t WHERE k = 'tok:%sbusy%d'", e.tag, k), Options: &message.QueryOptions{}})
+					}
+					ctx.Count("heartbeat:requests-in-flight-on-the-silent-host")
+				}
+			}
+		}
 		closed := false
 		for time.Since(t0) < idle+2*time.Second {
 			if e.be.ReadyConns(h) == 0 {
